@@ -263,7 +263,11 @@ func runDeductive(L *Loaded, db *ContractDB, rep *Report) {
 			}
 			continue
 		}
-		fn := L.Funcs[key]
+		fkey := key
+		if fc.Base != "" {
+			fkey = fc.Base
+		}
+		fn := L.Funcs[fkey]
 		if fn == nil {
 			rep.Errs = append(rep.Errs, fmt.Sprintf("contract target missing: %s (%s)", key, fc.Src))
 			continue
@@ -416,7 +420,7 @@ func finish(rep *Report, verif string, db *ContractDB, t0 time.Time) int {
 			if ob.Result == "sat" {
 				coversSat++
 			} else if ob.Result == "unsat" {
-				fails = append(fails, failure{name: ob.Name, detail: "vacuity: precondition unsatisfiable (" + ob.Src + ")\n" + ob.Output, script: ob.Script})
+				fails = append(fails, failure{name: ob.Name, detail: "vacuity: " + ob.Name[strings.LastIndex(ob.Name, "/cover:")+7:] + " is unsatisfiable: the assumed contract text is contradictory on this path, or the point is unreachable (" + ob.Src + ")\n" + ob.Output, script: ob.Script})
 			}
 			continue
 		}
